@@ -222,10 +222,23 @@ def _execute(case):
         if via == "main":
             p = dict(params)
             p[GN.GCM_TYPE] = gen
-            return gcmpy.GCMAlgorithmMain.load_gcm_algorithm(p)
-        cls = {"fast": gcmpy.GCMAlgorithmFast, "network": gcmpy.GCMAlgorithmNetwork,
-               "motifs": gcmpy.GCMAlgorithmCustomMotifs}[gen]
-        return cls(params)
+            alg = gcmpy.GCMAlgorithmMain.load_gcm_algorithm(p)
+        else:
+            p = params
+            cls = {"fast": gcmpy.GCMAlgorithmFast, "network": gcmpy.GCMAlgorithmNetwork,
+                   "motifs": gcmpy.GCMAlgorithmCustomMotifs}[gen]
+            alg = cls(p)
+        if case.get("dict_reuse"):
+            # the caller re-uses the SAME parameter dictionary for another generator afterwards (as the library's own tests do):
+            # a generator is configured by what the dictionary held when it was built
+            p[GN.MOTIF_SIZES] = [s_ + 1 for s_ in p[GN.MOTIF_SIZES]]
+            p[GN.BUILD_FUNCTIONS] = [(lambda vs: [(vs[0], vs[-1])]) for _ in p[GN.BUILD_FUNCTIONS]]
+            p[GN.EDGE_NAMES] = ["other-%d" % i_ for i_ in range(len(p[GN.EDGE_NAMES]))]
+            try:
+                (gcmpy.GCMAlgorithmMain.load_gcm_algorithm(p) if via == "main" else cls(p))
+            except Exception:
+                pass
+        return alg
     holder = {}
     if case.get("pre_jds"):
         # history: the SAME generator object already produced a graph (for the same or another sequence) before the judged call
